@@ -914,7 +914,7 @@ def gen_api_jwe_consume_lib(run, ctx):
                     elif r < 0.55 and spec_names:       # retype it
                         n = rng.choice(spec_names)
                         hdr[n] = copy.deepcopy(rng.choice([x for x in NONSTR if not type_ok(
-                            dict(ECDH, **dict(PBES2, **GCMKW))[n][0], x)]))
+                            dict(ECDH1PU, **dict(PBES2, **GCMKW))[n][0], x)]))
                     elif r < 0.7:
                         tgt = hdr if rng.random() < 0.5 else tok.setdefault("unprotected", {})
                         tgt["crit"] = rand_crit(rng, merge([json.loads(base64.urlsafe_b64decode(tok["protected"] + "==")),
